@@ -20,7 +20,7 @@ func main() {
 	budget := 100 * time.Second
 	if c.Tier == "thorough" {
 		budget = 14 * time.Minute
-		cfgs = append(cfgs, driver.CfgWorker2,
+		cfgs = append(cfgs, driver.CfgSplitFieldDir,
 			driver.Opt("omit-slice-element-pointers", "omit_slice_element_pointers: true\n"),
 			driver.Opt("resolvers-no-pointers", "resolvers_always_return_pointers: false\n"),
 			driver.Opt("omit-getters", "omit_getters: true\n"),
